@@ -69,11 +69,23 @@ type Run struct {
 	Stratum  string
 	start    time.Time
 	stepCap  int
+	sched    *simrt.Chooser
+	steps0   int
 	finished bool
 }
 
-func (r *Run) Gen() *simrt.Chooser   { return r.W.Gen }
-func (r *Run) Sched() *simrt.Chooser { return r.W.Sched }
+func (r *Run) Gen() *simrt.Chooser { return r.W.Gen }
+
+// Sched returns the chooser that drives scheduling decisions; harnesses that enumerate
+// sub-runs swap it with SetSched (a replay chooser over a recorded prefix).
+func (r *Run) Sched() *simrt.Chooser {
+	if r.sched != nil {
+		return r.sched
+	}
+	return r.W.Sched
+}
+func (r *Run) SetSched(c *simrt.Chooser) { r.sched = c }
+func (r *Run) ResetSteps()               { r.steps0 = r.W.Step() }
 
 // Settle waits until every goroutine of the bubble is durably blocked.
 func (r *Run) Settle() { synctest.Wait() }
@@ -89,7 +101,7 @@ func (r *Run) Advance(d time.Duration) {
 // BeginStep draws the per-step salt and publishes it; returns false when the step cap is hit.
 func (r *Run) BeginStep() bool {
 	n := r.W.NextStep()
-	if n > r.stepCap {
+	if n-r.steps0 > r.stepCap {
 		return false
 	}
 	salt := r.Sched().Biased("salt", 8, 3, 4)
